@@ -189,9 +189,14 @@ def search(chk, broken):
             else:
                 a.mv = U.MPS(rng.uniform(300, 1000))
             exp = a.get_velocity_for_temp(shot.atmo.powder_temp) >> U.MPS
-            got = calc.fire(shot, U.Meter(20), U.Meter(10)).trajectory[0].velocity >> U.MPS
+            try:
+                got = calc.fire(shot, U.Meter(20), U.Meter(10)).trajectory[0].velocity >> U.MPS
+            except pbc.RangeError as e:      # (an extreme calibration can give a velocity too low, or negative, to reach 20 m: the muzzle row still shows it)
+                if not e.incomplete_trajectory:
+                    continue
+                got = e.incomplete_trajectory[0].velocity >> U.MPS
             evals += 1
-            if abs(got - exp) > 1e-9 * exp:
+            if abs(got - abs(exp)) > 1e-9 * abs(exp):      # the row's velocity column is a speed
                 chk.failures.append(Failure('solver-launch-refired', f'the same Shot re-fired on the same Calculator after {kind}: launch velocity {got} m/s, the ammunition '
                                                                      f'gives {exp} m/s for the atmosphere\'s powder temperature',
                                             {'op': 'solver-launch-refired', 'after': kind, 'observed': got, 'expected': exp}))
